@@ -59,6 +59,7 @@ func initValidator(p *pubSub) *validator {
 func (v *validator) manageDeniedPeer() {
 
 	waitMsgReplyTicker := time.NewTicker(2 * time.Second)
+	verifLoopTicker(v, "deniedPeer", waitMsgReplyTicker)
 	recoverDeniedPeerTicker := time.NewTicker(10 * time.Minute)
 	for {
 
@@ -86,6 +87,7 @@ func (v *validator) manageDeniedPeer() {
 				v.handleBroadcastReply(reply, bcMsg)
 
 			}
+			verifLoopDone(v, "deniedPeer")
 
 		case <-recoverDeniedPeerTicker.C:
 			v.recoverDeniedPeers()
